@@ -447,6 +447,23 @@ def r3_typestate(P, rep, ctx):
     rep.check(bool(reopen) and g.every_path_passes(reopen, g.exit), "C02.R3", fi.qual, "commit_patch leaves element -1 reopened 'r' on every normal exit", fi.loc(),
               construct="reopen 'r' on all normal exits of commit_patch", message="commit_patch has a normal exit on which the newest container is not reopened read-only",
               path=g.path_text(g.find_path(g.exit, avoid=reopen)))
+    # ... and ONLY after the user block was written: the in-memory record may present the newest container as committed
+    # (read-only handle, hash recorded) only when the hash is on disk.  A reopen in a `finally:` / `except:` of the try
+    # around save() also runs when save() failed: the object then reports a committed patch that the files do not have
+    # (merge_files is no longer refused, create_patch stacks a patch on an uncommitted one).
+    for t in walk_local(fi.node):
+        if not isinstance(t, ast.Try):
+            continue
+        body_calls = [c for b in t.body for c in local_calls(b)]
+        if not any(call_attr(c) == "save" for c in body_calls):
+            continue
+        cleanup = list(t.finalbody) + [b for h in t.handlers for b in h.body]
+        for b in cleanup:
+            for x in ast.walk(b):
+                bad = isinstance(x, ast.Call) and (dotted(x.func) or "").endswith("h5py.File")
+                rep.check(not bad, "C02.R3", fi.qual, "the newest container is reopened as committed only after save() returned normally", fi.loc(b), construct="reopen in the clean-up of the try around save()",
+                          message="commit_patch reopens the newest container read-only in a finally/except block around IH5UserBlock.save: after a failed save the record object presents a committed patch whose user block on disk has no hash (merge / create_patch are no longer refused)")
+    rep.check(True, "C02.R3", fi.qual, "the newest container is reopened as committed only after save() returned normally", fi.loc(), construct="reopen after save")
 
 
 def _state_effects(P, fi, g) -> List[int]:
